@@ -10,6 +10,16 @@ Tie: E-SHIM on the whole instrumented runtime (common.shim_runtime_objects()).
      protocol's variables is replayed, access by access, on the Lean models (kind, values, CAS outcome, results);
      implementation-side monitors (exactly-once, freed-once, no access after free, released-once) are independent of it.
  (ii) end-to-end task programs on the instrumented runtime under random schedules with ghost-counter monitors.
+ (iii) composition: the same kind of programs with the runtime's entry points interposed (harness/c01/disp.cpp); every
+     task-level event (submit to which container, proxy claim side, take by whom, execute/cancel, release, zero-crossing,
+     wait return, slot enter/leave, proxy free) is validated as an enabled transition of the Lean `Dispatch` model
+     (Model/C01Dispatch.lean, driver c01dp) — theorems dispatch_exactly_once / dispatch_no_loss / wait_covers_transitive /
+     wait_covers_nested / any_taker.
+ (iv) store buffers: the memory orders at the deque's two Dekker sites are regenerated from the trace (Generated/C01.lean
+     dequeOrders), `deque_last_task_arbitration_tso` is stated over them; the executable TSO model (driver c01tso) is the
+     failing-input search when `fencesOK` no longer holds.
+ Generated facts: constants, dequeOrders / dequeSites, dispatchOrder (the order in which local_wait_for_all /
+ receive_or_steal_task look for work, re-extracted from the source text of src/tbb/task_dispatcher.h).
 """
 import json
 import os
@@ -26,6 +36,15 @@ WRAP_DEALLOC = "_ZN3tbb6detail2r110deallocateERNS0_2d117small_object_poolEPvm"
 WRAP_NOTIFY = "_ZN3tbb6detail2r114notify_waitersEm"
 WRAP_ALLOC_ED = "_ZN3tbb6detail2r18allocateERPNS0_2d117small_object_poolEmRKNS2_14execution_dataE"
 WRAP_ALLOC = "_ZN3tbb6detail2r18allocateERPNS0_2d117small_object_poolEm"
+WRAP_SPAWN2 = "_ZN3tbb6detail2r15spawnERNS0_2d14taskERNS2_18task_group_contextE"
+WRAP_SPAWN3 = "_ZN3tbb6detail2r15spawnERNS0_2d14taskERNS2_18task_group_contextEt"
+WRAP_SUBMIT = "_ZN3tbb6detail2r16submitERNS0_2d14taskERNS2_18task_group_contextEPNS1_5arenaEm"
+WRAP_ENQ2 = "_ZN3tbb6detail2r17enqueueERNS0_2d14taskEPNS2_15task_arena_baseE"
+WRAP_ENQ3 = "_ZN3tbb6detail2r17enqueueERNS0_2d14taskERNS2_18task_group_contextEPNS2_15task_arena_baseE"
+WRAP_EAW = "_ZN3tbb6detail2r116execute_and_waitERNS0_2d14taskERNS2_18task_group_contextERNS2_12wait_contextES6_"
+WRAP_WAIT = "_ZN3tbb6detail2r14waitERNS0_2d112wait_contextERNS2_18task_group_contextE"
+DISP_WRAPS = (WRAP_SPAWN2, WRAP_SPAWN3, WRAP_SUBMIT, WRAP_ENQ2, WRAP_ENQ3, WRAP_EAW, WRAP_WAIT, WRAP_NOTIFY,
+              WRAP_ALLOC_ED, WRAP_ALLOC, WRAP_DEALLOC_ED, WRAP_DEALLOC)
 
 
 def build(name, wraps=()):
@@ -47,6 +66,86 @@ def build(name, wraps=()):
 # generated constants
 # --------------------------------------------------------------------------------------------------
 
+def function_body(text, signature_re):
+    """the text of the first function whose definition matches signature_re (brace matching), or ''"""
+    m = re.search(signature_re, text)
+    if not m:
+        return ""
+    i = text.find("{", m.end())
+    if i < 0:
+        return ""
+    depth, j = 0, i
+    while j < len(text):
+        if text[j] == "{":
+            depth += 1
+        elif text[j] == "}":
+            depth -= 1
+            if depth == 0:
+                return text[i:j + 1]
+        j += 1
+    return ""
+
+
+def strip_comments(text):
+    text = re.sub(r"/\*.*?\*/", " ", text, flags=re.S)
+    return re.sub(r"//[^\n]*", " ", text)
+
+
+def dispatch_order():
+    """The order in which the real dispatcher looks for work, re-extracted from the SOURCE TEXT of
+    src/tbb/task_dispatcher.h: local_wait_for_all (bypass loop, slot.get_task, receive_or_steal_task) followed by the
+    else-if chain of receive_or_steal_task (inbox, resume stream, fifo stream, steal, critical)."""
+    text = strip_comments(open(os.path.join(REPO, "src/tbb/task_dispatcher.h")).read())
+    lw = function_body(text, r"template\s*<\s*bool\s+ITTPossible\s*,\s*typename\s+Waiter\s*>\s*d1::task\*\s+task_dispatcher::local_wait_for_all\s*\(")
+    rs = function_body(text, r"d1::task\*\s+task_dispatcher::receive_or_steal_task\s*\(")
+    outer = [("bypass", r"while\s*\(\s*t\s*!=\s*nullptr\s*\)"), ("local", r"slot\.get_task\s*\("), ("@steal_loop", r"receive_or_steal_task\s*<")]
+    inner = [("mailbox", r"get_inbox_or_critical_task\s*\("), ("resume", r"get_stream_or_critical_task\s*\([^;{]*resume_stream"),
+             ("fifo", r"get_stream_or_critical_task\s*\([^;{]*fifo_stream"), ("steal", r"steal_or_get_critical\s*\("),
+             ("critical", r"else\s*\{\s*t\s*=\s*get_critical_task\s*\(")]
+
+    def positions(body, pats):
+        found = []
+        for name, pat in pats:
+            m = re.search(pat, body)
+            if m:
+                found.append((m.start(), name))
+        return [n for _, n in sorted(found)]
+    o, i = positions(lw, outer), positions(rs, inner)
+    order = []
+    for n in o:
+        if n == "@steal_loop":
+            order += i
+        else:
+            order.append(n)
+    return order
+
+
+def deque_sites(exe):
+    """Memory orders actually executed at the two Dekker sites of the deque (E-SHIM trace of the real arena_slot code):
+    owner side: in get_task, the last access that MODIFIES `tail` before a load of `head`; thief side: in steal_task, the
+    last access that MODIFIES `head` before a load of `tail`; plus whether a seq_cst fence lies between the two."""
+    sites, table = {"owner": [], "thief": []}, set()
+    for si, sc in enumerate(DEQUE_CORPUS[:4]):
+        rc, out, err = sh([exe, "rand", str(90 + si), "6"], input=deque_text(sc), timeout=300)
+        for r in parse_runs(out):
+            ords = r.get("ord", [])
+            fences = r.get("fence", [])
+            last_mod = {}               # tid -> (index, kind, order) of the last modification of its own bound
+            for i, e in enumerate(r["ev"]):
+                tid, var, kind = e[0], e[1], e[2]
+                role = "owner" if tid == 0 else "thief"
+                o = ords[i] if i < len(ords) else "?"
+                table.add((role, var, kind, o))
+                mine, other = ("tail", "head") if role == "owner" else ("head", "tail")
+                if var == mine and kind != "load":
+                    last_mod[tid] = (i, kind, o)
+                elif var == other and kind == "load" and tid in last_mod:
+                    j, k2, o2 = last_mod.pop(tid)
+                    fenced = any(ft == tid and fo == "sc" and j < fi <= i for fi, ft, fo in fences)
+                    sites[role].append((k2, o2, fenced))
+    return sites, sorted(table)
+
+
 def gen(ck):
     exe = cxx_build(PID, "consts", ["harness/c01/consts.cpp"], flags=["-O1", "-fno-access-control", "-I" + REPO + "/src"])
     rc, out, err = sh([exe], timeout=60)
@@ -54,7 +153,30 @@ def gen(ck):
         raise BuildError("consts failed: " + err[-500:])
     c = json.loads(out)
     ck.extra["generated_constants"] = c
-    gen_write(PID, "".join("def %s : Nat := %d\n" % (k, v) for k, v in sorted(c.items())))
+    body = "".join("def %s : Nat := %d\n" % (k, v) for k, v in sorted(c.items()))
+    order = dispatch_order()
+    ck.extra["dispatch_order_from_source"] = order
+    body += "def dispatchOrder : List String := [%s]\n" % ", ".join('"%s"' % n for n in order)
+    ck.oblige("gen:dispatch order extracted from src/tbb/task_dispatcher.h (local_wait_for_all + receive_or_steal_task: every one of the 7 "
+              "look-up sites found once, bypass loop first)", "generated",
+              sorted(order) == sorted(["bypass", "local", "mailbox", "resume", "fifo", "steal", "critical"]) and order[0] == "bypass",
+              "found: " + " ".join(order))
+    sites, table = deque_sites(build("deque"))
+    rmw = ("fadd", "fsub", "xchg", "cas", "for", "fand", "fxor")
+
+    def side(lst):
+        if not lst:
+            return False, False
+        return (all(k in rmw and o == "sc" for k, o, _ in lst), all(f for _, _, f in lst))
+    (dec_rmw, dec_fence), (inc_rmw, inc_fence) = side(sites["owner"]), side(sites["thief"])
+    ck.extra["deque_dekker_sites"] = {"owner(tail then head)": sorted(set(sites["owner"])), "thief(head then tail)": sorted(set(sites["thief"])),
+                                      "pairs_observed": [len(sites["owner"]), len(sites["thief"])]}
+    body += "def dequeOrders : TbbVerif.C01.DequeTso.Orders := ⟨%s, %s, %s, %s⟩\n" % tuple("true" if b else "false" for b in (dec_rmw, dec_fence, inc_rmw, inc_fence))
+    body += "def dequeSites : List (String × String × String × String) := [%s]\n" % ", ".join('("%s", "%s", "%s", "%s")' % t for t in table)
+    ck.oblige("gen:deque Orders regenerated from the E-SHIM trace (owner: tail-update then head-load, thief: head-update then tail-load; both sides observed)",
+              "generated", bool(sites["owner"]) and bool(sites["thief"]), "pairs observed: owner %d thief %d" % (len(sites["owner"]), len(sites["thief"])))
+    ck.extra["deque_orders"] = {"decRmw": dec_rmw, "decFence": dec_fence, "incRmw": inc_rmw, "incFence": inc_fence}
+    gen_write(PID, body, imports=("TbbVerif.Core.Cint", "TbbVerif.Model.C01Tso"))
     return c
 
 
@@ -74,6 +196,9 @@ def parse_runs(out):
             continue
         elif w[0] == "e":
             cur["ev"].append((int(w[1]), w[2], w[3], w[4], w[5], w[6]))
+            cur.setdefault("ord", []).append(w[7] if len(w) > 7 else "?")
+        elif w[0] == "f":
+            cur.setdefault("fence", []).append((len(cur["ev"]), int(w[1]), w[2]))
         elif w[0] == "snap":
             # white-box content of task_pool_ptr[head..tail) after an owner operation, with its position in the trace
             cur["snap"].append((len(cur["ev"]), " ".join(w[1:])))
@@ -850,6 +975,531 @@ def run_e2e(ck):
     return bad
 
 
+# --------------------------------------------------------------------------------------------------
+# Dispatch: task-level event log of the instrumented runtime validated against the Lean composition model
+# --------------------------------------------------------------------------------------------------
+
+DISP_PROGS = ["tg_nested", "tg_tree", "pfor_affinity", "mail_claim", "isolate", "pfor_tg", "enqueue", "enq_nowait", "cancel",
+              "critical", "oversub", "xexec"]
+
+
+def parse_disp(out):
+    runs, cur = [], None
+    for l in out.split("\n"):
+        w = l.split()
+        if not w:
+            continue
+        if w[0] == "run":
+            cur = {"mon": "", "sched": [], "units": 0, "steps": 0, "threads": 0, "ev": []}
+        elif w[0] == "CRASH":
+            cur = {"mon": "VIOLATION the runtime crashed inside the controlled run (%s %s)" % (w[1], w[2] if len(w) > 2 else ""),
+                   "sched": [], "units": 0, "steps": 0, "threads": 0, "ev": []}
+        elif cur is None:
+            continue
+        elif w[0] == "units":
+            cur["units"], cur["steps"], cur["threads"] = int(w[1]), int(w[3]), int(w[5])
+            cur["apps"] = int(w[7]) if len(w) > 7 else 1
+        elif w[0] == "v":
+            cur["ev"].append(w[1:])
+        elif w[0] == "mon":
+            cur["mon"] = " ".join(w[1:])
+        elif w[0] == "sched":
+            cur["sched"] = w[1:]
+        elif w[0] == "end":
+            runs.append(cur)
+            cur = None
+    return runs
+
+
+_LOOK_ORDER = []
+
+
+def look_order():
+    """the dispatcher's look-up order as extracted from the current source (the validator runs the model with it)"""
+    if not _LOOK_ORDER:
+        _LOOK_ORDER.extend(dispatch_order())
+    return _LOOK_ORDER
+
+
+def dp_translate(run):
+    """harness events -> driver lines of `c01dp`.  Returns (lines, expect, notes, stats): expect[i] = the exact answer
+    required for line i (None: any answer starting with 'ok'); notes = abstraction-level inconsistencies found while
+    translating (e.g. the runtime's execution_data.original_slot disagrees with the container the unit was submitted to)."""
+    ev = run["ev"]
+    apps = run.get("apps", 1)
+    arenas = {}
+    for e in ev:
+        if e[0] == "A":
+            arenas[int(e[1])] = int(e[2])
+    base, slot_arena = {}, []
+    for a in sorted(arenas):
+        base[a] = len(slot_arena)
+        slot_arena += [a] * arenas[a]
+    nthreads = max([run["threads"]] + [int(e[1]) + 1 for e in ev if e[0] in ("ent", "exec", "sub", "wb", "grp")])
+    lines = ["init %d %d %s | %s" % (max(len(arenas), 1), nthreads, " ".join(look_order()), " ".join(map(str, slot_arena)))]
+    expect = [None]
+    notes = []
+    stats = {"take_bypass": 0, "take_local": 0, "take_steal": 0, "take_stream": 0, "mailed": 0, "mailed_pool_side_owner": 0,
+             "mailed_pool_side_thief": 0, "mailed_box_side": 0, "free_pool_side": 0, "free_box_side": 0, "free_drain": 0, "enter": 0,
+             "leave": 0, "cancelled_units": 0, "cancel_writes": 0, "hoisted_complete": 0, "respawn": 0, "waits": 0, "delegated": 0,
+             "events": 0}
+
+    def out(line, exp=None):
+        lines.append(line)
+        expect.append(exp)
+        stats["events"] += 1
+    occ = {}                     # (arena, slot) -> tid
+    stack = {}                   # tid -> shadow of the model stack: ("A", arena, slot) | ("W", g) | ("X", model unit)
+    ctxmap, nctx = {}, [0]
+    isomap = {"(nil)": 0}
+    gmap, wc2g, ngroups = {}, {}, [0]
+    units = {}                   # harness uid (or ("d", did)) -> dict(mu = model id, where, g, thread, state)
+    nunits, nprox = [0], [0]
+    pidmap, punit = {}, {}       # harness pid -> model pid / -> harness uid
+    deleg = {}                   # did -> dict(caller, runner, key, g)
+    open_deleg = {}              # caller tid -> did (a delegated call in flight)
+    # a task_arena::execute call is DELEGATED when its body runs on another thread, or when the caller enters the arena only
+    # to wait for its delegate (r1::wait on the delegate's private wait_context) and then happens to run it itself
+    delegated = set()
+    pending_call = {}            # caller tid -> did, between dcall and dbody
+    for e in ev:
+        if e[0] == "dcall":
+            pending_call[int(e[1])] = int(e[2])
+        elif e[0] == "dbody":
+            did, x = int(e[2]), int(e[1])
+            callers = [t for t, d in pending_call.items() if d == did]
+            if callers and callers[0] != x:
+                delegated.add(did)
+            for t in callers:
+                del pending_call[t]
+        elif e[0] == "wb" and int(e[2]) < 0 and int(e[1]) in pending_call:
+            delegated.add(pending_call[int(e[1])])
+
+    def ctx_of(ptr):
+        if ptr not in ctxmap:
+            ctxmap[ptr] = nctx[0]
+            nctx[0] += 1
+            out("ctx")
+        return ctxmap[ptr]
+
+    def iso_of(ptr):
+        if ptr not in isomap:
+            isomap[ptr] = len(isomap)
+        return isomap[ptr]
+
+    def cur_attach(t):
+        for f in reversed(stack.get(t, [])):
+            if f[0] == "A":
+                return f
+        return None
+
+    def new_unit(key, where, g):
+        units[key] = {"mu": nunits[0], "where": where, "g": g}
+        nunits[0] += 1
+        return units[key]["mu"]
+
+    def new_group(key):
+        gmap[key] = ngroups[0]
+        ngroups[0] += 1
+        return gmap[key]
+
+    def grab(t, key, orig=None):
+        """the unit leaves its container and is in thread t's hand"""
+        d = units[key]
+        wh = d["where"]
+        at = cur_attach(t)
+        if wh[0] == "stream":
+            stats["take_stream"] += 1
+            out("grab %d stream %d %d" % (t, wh[2], d["mu"]))
+        elif wh[0] in ("pool", "mail"):
+            a, sl = wh[1], wh[2]
+            own = at is not None and (at[1], at[2]) == (a, sl)
+            if wh[0] == "pool":
+                stats["take_local" if own else "take_steal"] += 1
+            if orig is not None and orig != sl:
+                notes.append("unit %d: it was in the pool of slot %d, but execution_data.original_slot = %d" % (d["mu"], sl, orig))
+            out("grab %d pool %d %d" % (t, base[a] + sl, d["mu"]))
+        d["where"] = ("hand", t)
+
+    for e in ev:
+        k = e[0]
+        if k == "A":
+            continue
+        if k == "ent":
+            t, a, sl = int(e[1]), int(e[2]), int(e[3])
+            if a not in base:
+                notes.append("slot of an unknown arena occupied")
+                continue
+            occ[(a, sl)] = t
+            stack.setdefault(t, []).append(("A", a, sl))
+            stats["enter"] += 1
+            out("enter %d %d" % (t, base[a] + sl))
+            if t >= apps:
+                out("bw %d -1 0" % t)          # a worker: arena::process enters the outermost dispatch loop
+                stack[t].append(("W", None))
+        elif k == "lev":
+            t, a, sl = int(e[1]), int(e[2]), int(e[3])
+            if occ.get((a, sl)) != t:
+                continue                      # the arena constructor initialises the flags
+            st = stack.get(t, [])
+            if st and st[-1] == ("W", None):
+                out("wr %d" % t)              # a worker leaves its outermost dispatch loop before it releases the slot
+                st.pop()
+            if st and st[-1][0] == "A":
+                st.pop()
+            else:
+                notes.append("thread %d released slot %d of arena %d with frames above its attachment" % (t, sl, a))
+            del occ[(a, sl)]
+            stats["leave"] += 1
+            out("leave %d" % t)
+        elif k == "cw":
+            if e[2] == "0":
+                ctxmap.pop(e[1], None)
+            else:
+                stats["cancel_writes"] += 1
+                out("cancel %d" % ctx_of(e[1]))
+        elif k == "grp":
+            t, g = int(e[1]), int(e[2])
+            mg = new_group(g)
+            if e[3] != "(nil)":
+                wc2g[e[3]] = g
+            out("grp %d" % t, "ok g=%d" % mg)
+        elif k == "sub":
+            t, u, g = int(e[1]), int(e[2]), int(e[3])
+            kind = e[6]
+            if kind == "respawn":
+                # get_critical_task found a critical task while the dispatcher held `u` in its hand (returned by execute(),
+                # or just stolen / taken): `u` is spawned into the thread's own pool
+                stats["respawn"] += 1
+                if u not in units:
+                    notes.append("a task the harness never saw was re-spawned")
+                    continue
+                if units[u]["where"][0] != "hand":
+                    grab(t, u)
+                at = cur_attach(t)
+                units[u]["where"] = ("pool", at[1], at[2])
+                units[u].pop("via", None)
+                out("respawn %d" % t)
+                continue
+            if g not in gmap:
+                notes.append("a unit was submitted outside every annotated group (harness uid %d)" % u)
+                continue
+            c, iso = ctx_of(e[4]), iso_of(e[5])
+            at = cur_attach(t)
+            head = "sub %d %d %d %d " % (t, gmap[g], c, iso)
+            if kind == "spawn":
+                mu = new_unit(u, ("pool", at[1], at[2]), g)
+                out(head + "spawn", "ok u=%d" % mu)
+            elif kind == "mail":
+                dst, pid = int(e[7]), int(e[8])
+                mu = new_unit(u, ("mail", at[1], at[2], dst), g)
+                pidmap[pid] = nprox[0]
+                nprox[0] += 1
+                punit[pid] = u
+                stats["mailed"] += 1
+                out(head + "mail %d" % (base[at[1]] + dst), "ok u=%d p=%d" % (mu, pidmap[pid]))
+            elif kind == "stream":
+                a, kd = int(e[7]), int(e[8])
+                mu = new_unit(u, ("stream", a, kd), g)
+                out(head + "stream %d %d" % (a, kd), "ok u=%d" % mu)
+            else:                              # direct / byp: straight into the dispatcher's hand
+                mu = new_unit(u, ("hand", t), g)
+                out(head + "bypass", "ok u=%d" % mu)
+        elif k == "claim":
+            # task_proxy::extract_task won the task: value written 1 (pool_bit) = claimed from the mailbox, 2 = from the pool
+            t, pid, v = int(e[1]), int(e[2]), int(e[3])
+            if pid not in punit:
+                notes.append("a proxy was claimed whose submission was not logged")
+                continue
+            u = punit[pid]
+            d = units[u]
+            wh = d["where"]
+            if wh[0] != "mail":
+                notes.append("unit %d claimed through a proxy twice" % d["mu"])
+                continue
+            if v == 1:
+                stats["mailed_box_side"] += 1
+                out("grab %d box %d" % (t, d["mu"]))
+                d["via"] = "box"
+            else:
+                at = cur_attach(t)
+                own = at is not None and (at[1], at[2]) == (wh[1], wh[2])
+                stats["mailed_pool_side_owner" if own else "mailed_pool_side_thief"] += 1
+                out("grab %d pool %d %d" % (t, base[wh[1]] + wh[2], d["mu"]))
+                d["via"] = ("pool", wh[2])
+            d["where"] = ("hand", t)
+        elif k == "exec":
+            t, u, orig, canc = int(e[1]), int(e[2]), int(e[3]), e[4] == "1"
+            if u not in units:
+                notes.append("a unit was executed whose submission was not logged (harness uid %d)" % u)
+                continue
+            d = units[u]
+            if canc:
+                stats["cancelled_units"] += 1
+            if d["where"][0] == "mail":
+                notes.append("unit %d: a mailed task was executed without a successful claim of its proxy" % d["mu"])
+                continue
+            if d["where"][0] == "hand":
+                if d["where"][1] != t:
+                    notes.append("unit %d is executed by thread %d but was handed to thread %d" % (d["mu"], t, d["where"][1]))
+                if d.get("via") == "box" and orig != 65534:
+                    notes.append("unit %d came from the mailbox but execution_data.original_slot = %d" % (d["mu"], orig))
+                if isinstance(d.get("via"), tuple) and orig != d["via"][1]:
+                    notes.append("unit %d: its proxy was in the pool of slot %d, but execution_data.original_slot = %d" % (d["mu"], d["via"][1], orig))
+                if "via" not in d:
+                    stats["take_bypass"] += 1
+            else:
+                grab(t, u, orig)
+            out("take %d bypass %d" % (t, d["mu"]), "ok cancel" if canc else "ok exec")
+            d["thread"], d["state"] = t, "running"
+            stack.setdefault(t, []).append(("X", d["mu"]))
+        elif k == "fin":
+            t, u = int(e[1]), int(e[2])
+            if u not in units:
+                continue
+            d = units[u]
+            if d.get("state") == "running":
+                out("complete %d %d" % (t, d["mu"]))
+            out("ret %d %d" % (t, d["mu"]))
+            d["state"] = "done"
+            st = stack.get(t, [])
+            if st and st[-1] == ("X", d["mu"]):
+                st.pop()
+            else:
+                notes.append("unit %d returned on thread %d out of stack order" % (d["mu"], t))
+        elif k == "zero":
+            g = wc2g.get(e[2])
+            if g is None:
+                continue
+            # every unit of the group has released its reference: those whose call has not returned to the dispatcher yet
+            # are `released` from here on (the runtime's own counter is the witness)
+            for u, d in units.items():
+                if d["g"] == g and d.get("state") == "running":
+                    tu = d["thread"]
+                    if stack.get(tu) and stack[tu][-1] == ("X", d["mu"]):
+                        out("complete %d %d" % (tu, d["mu"]))
+                        d["state"] = "released"
+                        stats["hoisted_complete"] += 1
+            out("zero %d" % gmap[g])
+        elif k == "wb":
+            t, g = int(e[1]), int(e[2])
+            iso = iso_of(e[3])
+            if g < 0 and t in open_deleg:
+                g = ("d", open_deleg[t])       # task_arena::execute: the caller got a slot and helps until its delegate is done
+            if g not in gmap:
+                notes.append("thread %d waits for a group the harness did not annotate" % t)
+                continue
+            if e[4] != "(nil)":
+                wc2g[e[4]] = g
+            stats["waits"] += 1
+            out("bw %d %d %d" % (t, gmap[g], iso))
+            stack.setdefault(t, []).append(("W", g))
+        elif k == "we":
+            t = int(e[1])
+            st = stack.get(t, [])
+            if st and st[-1][0] == "W" and st[-1][1] is not None:
+                st.pop()
+                out("wr %d" % t)
+            else:
+                notes.append("thread %d returned from a wait that is not its innermost frame" % t)
+        elif k == "pfree":
+            pid = int(e[2])
+            if pid in pidmap:
+                out("free %s %d" % (e[1], pidmap[pid]))
+        elif k == "dcall":
+            t, did, a = int(e[1]), int(e[2]), int(e[3])
+            if did not in delegated:
+                continue
+            # delegated: task_arena::execute found no free slot, the delegate travels as a task through the fifo stream
+            stats["delegated"] += 1
+            key = ("d", did)
+            mg = new_group(key)
+            out("grp %d" % t, "ok g=%d" % mg)
+            out("ctx")
+            c = nctx[0]
+            nctx[0] += 1
+            mu = new_unit(key, ("stream", a, 1), key)
+            out("sub %d %d %d 0 stream %d 1" % (t, mg, c, a), "ok u=%d" % mu)
+            deleg[did] = {"caller": t}
+            open_deleg[t] = did
+        elif k == "dbody":
+            t, did = int(e[1]), int(e[2])
+            if did not in deleg:
+                continue
+            key = ("d", did)
+            grab(t, key)
+            out("take %d bypass %d" % (t, units[key]["mu"]), "ok exec")
+            units[key]["thread"], units[key]["state"] = t, "running"
+            stack.setdefault(t, []).append(("X", units[key]["mu"]))
+        elif k == "dend":
+            t, did = int(e[1]), int(e[2])
+            if did not in deleg:
+                continue
+            key = ("d", did)
+            out("complete %d %d" % (t, units[key]["mu"]))
+            out("ret %d %d" % (t, units[key]["mu"]))
+            units[key]["state"] = "done"
+            st = stack.get(t, [])
+            if st and st[-1] == ("X", units[key]["mu"]):
+                st.pop()
+        elif k == "dret":
+            open_deleg.pop(int(e[1]), None)
+        elif k in ("occ-unknown", "cw-unknown", "tat-unknown"):
+            notes.append("unexpected access kind on a slot-occupancy / cancellation / task_and_tag word: " + " ".join(e))
+    out("state")
+    return lines, expect, notes, stats
+
+
+def dp_validate(run):
+    """None if every event is an enabled transition of Dispatch with the same outcome, else the first rejection."""
+    lines, expect, notes, stats = dp_translate(run)
+    res = drv("c01dp", "\n".join(lines) + "\n")
+    if len(res) < len(lines):
+        return "model output truncated", stats, lines
+    for i, (l, r) in enumerate(zip(lines, res)):
+        if expect[i] is not None:
+            if r == "ok cancel" and expect[i] == "ok exec":
+                # the unit was executed although its context's flag was already set: allowed by the property (a unit is
+                # skipped ONLY IF its group was cancelled, not IF); counted, not a failure
+                stats["executed_although_cancelled"] = stats.get("executed_although_cancelled", 0) + 1
+            elif r != expect[i]:
+                return "event %d [%s]: model answers [%s], the implementation did [%s]" % (i, l, r, expect[i]), stats, lines
+        elif not r.startswith("ok") and not l.startswith("state"):
+            return "event %d [%s]: %s" % (i, l, r), stats, lines
+        if "side=" in r:
+            stats["free_" + {"pool": "pool_side", "mailbox": "box_side", "drain": "drain"}[r.split("side=")[1].strip()]] += 1
+    st = res[len(lines) - 1]
+    m = re.search(r"pending=\[([^\]]*)\] running=\[([^\]]*)\] twice=\[([^\]]*)\]", st)
+    if not m or m.group(1).strip() or m.group(2).strip() or m.group(3).strip():
+        return "at the end of the run the model still has pending / running / twice-executed units: " + st[:200], stats, lines
+    if notes:
+        return "abstraction: " + notes[0], stats, lines
+    return None, stats, lines
+
+
+DP_PROPERTY_REJECTIONS = [
+    (r"rej wr: the wait returned but group", "wait-returned-before-its-group-finished"),
+    (r"rej zero:", "wait-counter-zero-with-live-units"),
+    (r"still carries its task", "proxy-freed-with-its-task-lost"),
+    (r"freed twice", "proxy-freed-twice"),
+    (r"rej take:.*st=TbbVerif\.C01\.Dispatch\.UState\.(running|released|done)", "unit-taken-twice"),
+    (r"rej (take|grab):.*it is not in the named container", "unit-taken-from-a-container-it-is-not-in"),
+    (r"model answers \[ok exec\], the implementation did \[ok cancel\]", "unit-skipped-although-its-context-was-not-cancelled"),
+    (r"at the end of the run the model still has pending", "unit-never-executed"),
+]
+
+
+def run_dispatch(ck):
+    quick = ck.tier == "quick"
+    exe = build("disp", DISP_WRAPS)
+    rng = ck.rng
+    cases = []
+    for prog in DISP_PROGS:
+        for P in (1, 2, 3, 4):
+            cases.append((prog, P, rng.choice([1, 2, 3]) if quick else rng.choice([1, 2, 3, 4])))
+    per = 3 if quick else 60
+    bad_mon, bad_corr, nruns, steps, total = [], [], 0, 0, {}
+    for ci, (prog, P, size) in enumerate(cases):
+        seed = ck.seed * 100000 + ci * 1000 + 17
+        rc, out, err = sh([exe, prog, str(P), str(size), "rand", str(seed), str(per)], timeout=1500)
+        runs = parse_disp(out)
+        for i, r in enumerate(runs):
+            nruns += 1
+            steps += r["steps"]
+            if r["mon"] != "ok":
+                bad_mon.append(((prog, P, size, seed, i), r))
+                continue
+            d, stats, lines = dp_validate(r)
+            ck.traces_validated += 1
+            for k, v in stats.items():
+                total[k] = total.get(k, 0) + v
+            ck.count(1, ("dispatch", prog, P, size, r["threads"], r["units"], stats["delegated"] > 0, stats["mailed_box_side"] > 0,
+                         stats["mailed_pool_side_thief"] > 0, stats["free_pool_side"] > 0, stats["free_box_side"] > 0))
+            if d:
+                bad_corr.append(((prog, P, size, seed, i), r, d, lines))
+        if rc not in (0, 1, 3, 4) or (not runs and rc != 0):
+            bad_mon.append(((prog, P, size, seed, 0), {"mon": "harness crashed rc=%d %s" % (rc, (out + err)[-300:]), "sched": []}))
+    ck.extra.setdefault("schedules", {})["dispatch"] = {"random_runs": nruns, "scheduling_points": steps, "programs": DISP_PROGS,
+                                                        "arena_sizes": [1, 2, 3, 4], "task_level_events": total}
+    if cases:
+        ck.sample({"component": "dispatch", "cases": cases[:6]})
+    ck.oblige("monitor:dispatch task programs on the instrumented runtime with interposed entry points: every unit runs exactly once (at most once "
+              "if cancelled), every wait covers its group, no deadlock (nested groups, task trees, affinity / static partitioner with mailed "
+              "proxies claimed from both sides, isolate, task_group inside parallel_for, enqueue, enqueue into an arena nobody waits in, "
+              "cancel, oversubscription, task_arena::execute from external threads while workers come and go)", "correspondence",
+              not bad_mon, "" if not bad_mon else "%s | program %s P=%d size=%d" % ((bad_mon[0][1]["mon"],) + bad_mon[0][0][:3]))
+    ck.oblige("corr:dispatch every task-level event of the runtime (submit to which container, proxy claim side, take by whom, execute / "
+              "cancel, release, zero-crossing of the wait counter, wait return, slot enter / leave, proxy free) is an enabled transition of the "
+              "Lean Dispatch model with the same outcome", "correspondence", not bad_corr,
+              "" if not bad_corr else "%s | program %s P=%d size=%d seed=%d run=%d" % ((bad_corr[0][2],) + bad_corr[0][0]))
+
+    def with_schedule(case):
+        prog, P, size, seed, i = case
+        rc, out, err = sh([exe, prog, str(P), str(size), "randat", str(seed), str(i)], timeout=600)
+        rs = parse_disp(out)
+        return rs[0]["sched"] if rs else []
+    if bad_mon:
+        (prog, P, size, seed, i), r = bad_mon[0]
+        mon = r.get("mon", "")
+        key = "dispatch:%s:%s" % (prog, re.sub(r"[^A-Za-z]+", "-", re.sub(r"\d+", "N", mon))[:60].strip("-"))
+        ck.counterexample(key, "dispatch %s P=%d size=%d: %s (schedule of %d steps in the replay file)" % (prog, P, size, mon, len(r.get("sched", []))),
+                          {"engine": "E-SHIM", "component": "dispatch", "program": prog, "P": P, "size": size, "schedule": r.get("sched", []), "monitor": mon})
+    elif bad_corr:
+        # is the rejected event a failure of the PROPERTY (a unit lost / taken twice / a wait that returned early), or only a
+        # difference in how the runtime gets there?
+        for case, r, d, lines in bad_corr[:8]:
+            kind = next((name for pat, name in DP_PROPERTY_REJECTIONS if re.search(pat, d)), None)
+            if kind:
+                prog, P, size, seed, i = case
+                sched = with_schedule(case)
+                ck.counterexample("dispatch:%s:%s" % (prog, kind),
+                                  "dispatch %s P=%d size=%d: the runtime performed a task-level event the composition model forbids: %s"
+                                  % (prog, P, size, d[:300]),
+                                  {"engine": "E-SHIM", "component": "dispatch", "program": prog, "P": P, "size": size, "schedule": sched,
+                                   "rejected": d, "events_head": lines[:60]})
+                break
+        else:
+            # search: more schedules of the programs involved, with the implementation-side monitors
+            for case, r, d, lines in bad_corr[:4]:
+                prog, P, size, seed, i = case
+                rc, out, err = sh([exe, prog, str(P), str(size), "rand", str(seed + 500), str(4 * per if quick else 2 * per)], timeout=1500)
+                rs = [x for x in parse_disp(out) if x["mon"] != "ok"]
+                if rs:
+                    mon = rs[0]["mon"]
+                    ck.counterexample("dispatch:%s:%s" % (prog, re.sub(r"[^A-Za-z]+", "-", re.sub(r"\d+", "N", mon))[:60].strip("-")),
+                                      "dispatch %s P=%d size=%d: %s" % (prog, P, size, mon),
+                                      {"engine": "E-SHIM", "component": "dispatch", "program": prog, "P": P, "size": size,
+                                       "schedule": rs[0].get("sched", []), "monitor": mon})
+                    break
+    return bad_mon, bad_corr
+
+
+def run_tso(ck, lean_ok):
+    """The store-buffer layer: the executable TSO model of the last-task window is explored with the orders observed on the
+    real code (must find nothing) and with each Dekker side weakened (must find the double take) - and when the Lean
+    obligation `deque_fences_ok_observed` no longer holds the explorer's schedule is the failing input."""
+    o = ck.extra.get("deque_orders", {})
+    flags = [1 if o.get(k) else 0 for k in ("decRmw", "decFence", "incRmw", "incFence")]
+    try:
+        res = drv("c01tso", "explore %d %d %d %d\nexplore 0 0 1 0\nexplore 1 0 0 0\n" % tuple(flags))
+    except Exception as e:      # the driver could not be built
+        ck.oblige("corr:tso explorer available", "correspondence", False, str(e)[:200])
+        return
+    ck.extra["tso_explore"] = {"observed": res[0], "owner_store_plain_no_fence": res[1], "thief_store_plain_no_fence": res[2]}
+    fences_ok = (flags[0] or flags[1]) and (flags[2] or flags[3])
+    ok = (res[0].startswith("none") == bool(fences_ok)) and res[1].startswith("bad") and res[2].startswith("bad")
+    ck.oblige("corr:tso explorer: no double take / lost task under the observed orders of --tail / ++head, and a double take when either "
+              "side's update is a plain store without a fence", "correspondence", ok and bool(fences_ok),
+              "observed orders %s: %s" % (flags, res[0][:200]))
+    if res[0].startswith("bad"):
+        sched = res[0].split("|")[0].split()[1:]
+        ck.counterexample("deque-tso:last-task-taken-twice-under-store-buffers",
+                          "with the memory orders the code now executes at --tail / ++head (decRmw, decFence, incRmw, incFence = %s) the TSO model of "
+                          "get_task vs steal_task hands the last task out twice (or loses it) under schedule %s (0 owner, 1 thief, 2/3 flush)"
+                          % (flags, " ".join(sched)),
+                          {"engine": "TSO-model", "component": "deque-tso", "orders": flags, "schedule": sched})
+
+
 def report_cex(ck, comp, sc, r, text):
     mon = r.get("mon", "")
     key = "%s:%s" % (comp, re.sub(r"[^A-Za-z]+", "-", re.sub(r"\d+", "N", mon))[:60].strip("-"))
@@ -859,7 +1509,11 @@ def report_cex(ck, comp, sc, r, text):
 
 
 def run(ck):
-    ck.rule = ("E-SHIM on the instrumented runtime: hand-written last-task / isolation scenarios + seeded random owner/thief programs "
+    ck.rule = ("Dispatch tie: 12 task programs x arena sizes 1-4 x seeded random schedules on the whole instrumented runtime with "
+               "r1::spawn/submit/enqueue/execute_and_wait/wait/notify_waiters/allocate/deallocate interposed (wrapper tasks), the "
+               "task-level event log (merged with slot-occupancy, cancellation-flag and task_and_tag accesses of the atomic trace) "
+               "validated event by event against the Lean Dispatch model; deque Orders regenerated from the trace + TSO explorer; "
+               "component ties: E-SHIM on the instrumented runtime: hand-written last-task / isolation scenarios + seeded random owner/thief programs "
                "(small, mixed, isolation, growth k>64; deque+mailbox: mailed proxies emptied by the recipient before the owner reaches "
                "them below/above skipped foreign-isolation tasks, with handshakes and re-use of the freed proxy memory) under seeded "
                "random schedules, each access replayed on the Lean models and the white-box content of task_pool_ptr[head..tail) compared "
@@ -869,18 +1523,38 @@ def run(ck):
     ck.trusted += ["harness/shim (atomic shim + baton scheduler)", "harness/c01/*.cpp monitors and address→variable maps",
                    "trace replay in checks/c01.py (sampled correspondence)",
                    "-Wl,--wrap interposition of r1::deallocate / r1::notify_waiters in the wt and mail harnesses, of r1::allocate / "
-                   "r1::deallocate (forwarding to the real pool) in the e2e harness"]
+                   "r1::deallocate (forwarding to the real pool) in the e2e harness",
+                   "harness/c01/disp.cpp: wrapper tasks + interposed r1 entry points (the scheduler sees a wrapper instead of the user's task), "
+                   "group annotations of the programs, address tables (slot occupancy, cancellation flags, task_and_tag)",
+                   "checks/c01.py dp_translate: event -> model action map (source of a take inferred from the container of the "
+                   "submission and cross-checked with execution_data.original_slot; hoisting of `complete` at a zero-crossing; "
+                   "delegation inferred from task_arena::execute call / body threads)",
+                   "checks/c01.py dispatch_order / deque_sites: source-text and trace translators"]
     ck.assumptions += [
         "proved (Lean, all schedules, any number of thieves / pushers / threads): Deque conservation, no duplication, no loss, last-task "
         "arbitration on the full arena_slot model (growth/compaction under the lock, isolation holes, empty proxies); task_proxy two-sided "
         "claim (taken once, freed once by the loser, no access after free); fold_tree releases the wait node exactly once after the last "
         "leaf; reference_vertex forwarding and 'root counter 0 => quiescent' under the reserve discipline; task_stream conservation and "
         "population-bit invariant; see Props/C01.lean for the mail_outbox theorems and whether they are full or _partial",
-        "the models are sequentially consistent interleavings of atomic accesses, one step = one access plus the non-atomic code up to the "
-        "next access of the same thread (exactly one E-SHIM scheduling slice); release/acquire visibility and the store->load fences of "
-        "--tail / ++head are recorded in the trace but no TSO semantics is proved (DESIGN.md mentions a fencesOK side condition: not built)",
-        "composition (a unit is in exactly one container; dispatch loop; task_arena::execute delegation; flow-graph bodies) is covered by the "
-        "end-to-end monitors on the instrumented runtime under sampled schedules, not by a theorem (no dispatch_exactly_once)",
+        "the component models are sequentially consistent interleavings of atomic accesses, one step = one access plus the non-atomic code "
+        "up to the next access of the same thread (exactly one E-SHIM scheduling slice).  Store-buffer layer: the last-task arbitration "
+        "(owner --tail then head.load against thief ++head then tail.load) additionally has an x86-TSO model for 1 owner x 1 thief x 1 task "
+        "(finite closure, decide +kernel), proved safe under fencesOK over the memory orders regenerated from the E-SHIM trace, with "
+        "necessity witnesses; the N-thief deque and all other protocols are SC only; the portable (non-x86) reading in which a seq_cst RMW "
+        "is not a full barrier is not claimed",
+        "composition: Dispatch (Model/C01Dispatch.lean) is a task-level model of the whole dispatcher - pools / mailboxes / streams as bags "
+        "(interface discharged by the component theorems: deque_implements_bag, mailbox_implements_bag, stream_implements_bag, "
+        "proxy_implements_claim), proxies with the two-sided claim, the dispatcher's hand (bypass), exec / wait / attach frames, wait "
+        "references, cancellation, threads entering and leaving arenas; dispatch_exactly_once, dispatch_no_loss, wait_covers_transitive, "
+        "wait_covers_nested, any_taker are proved for every configuration and every action sequence.  The tie is trace refinement: every "
+        "task-level event of the instrumented runtime is validated as an enabled transition (sampled schedules)",
+        "Dispatch abstractions: a unit's release is logged when its execute() returns to the wrapper task, or earlier when the runtime's own "
+        "wait counter reaches 0 (r1::notify_waiters interposed): units of that wait_context that are still inside execute() are then "
+        "marked released - so 'wait returned while a body was still running' is left to the body-level monitors, while 'counter reached 0 / "
+        "wait returned while a unit was still pending in a container' is checked by the model; isolation is a guard only (C16 owns it); "
+        "which victim / lane is chosen, the LIFO/FIFO order inside a container and failed look-ups are not observable at task level (the "
+        "driver inserts misses); the delegated task of task_arena::execute is modelled as a unit of a private group in the fifo stream "
+        "(its body is observed, its enqueue is inferred from the call); resume tasks (C20) and flow-graph bodies are not exercised",
         "the reserve discipline of wait_zero_quiescent (only the main thread or a thread executing a unit of the group creates units) is an "
         "assumption about callers; a task_group::run racing with wait from an unrelated thread is outside the theorem",
         "weak CAS never fails spuriously under the shim; thief-side proxy skipping (recipient idle) is an oracle bit in the Deque model and is "
@@ -896,13 +1570,15 @@ def run(ck):
         "get_task calls; only a thief or an owner pop that reaches them removes them), arena::has_tasks() stays true and a blocking "
         "tbb::finalize() then spins forever in threading_control::wait_last_reference; the iso_* programs therefore run with P >= 2"]
     consts = gen(ck)
-    ck.lean_stage()
+    lean_ok = ck.lean_stage()
+    run_tso(ck, lean_ok)
     run_deque(ck, consts)
     run_mail(ck, consts)
     run_stream(ck)
     run_fold(ck)
     run_vertex(ck)
     run_e2e(ck)
+    run_dispatch(ck)
 
 
 COMPONENT_EXE = {"deque": ("deque", ()), "mail": ("mail", MAIL_WRAPS), "task_stream": ("stream", ()), "fold_tree": ("wt", WT_WRAPS), "wait_vertex": ("wt", WT_WRAPS)}
@@ -910,6 +1586,25 @@ COMPONENT_EXE = {"deque": ("deque", ()), "mail": ("mail", MAIL_WRAPS), "task_str
 
 def replay(ck, obj):
     r = obj["replay"]
+    if r["component"] == "deque-tso":
+        out = drv("c01tso", "run %s | %s\n" % (" ".join(map(str, r["orders"])), " ".join(r["schedule"])))
+        print(out[0])
+        return 0 if out[0].startswith("ok") else 1
+    if r["component"] == "dispatch":
+        exe = build("disp", DISP_WRAPS)
+        os.makedirs(os.path.join(common.BUILD, PID), exist_ok=True)
+        f = os.path.join(common.BUILD, PID, "replay_sched_dp.txt")
+        open(f, "w").write(" ".join(r["schedule"]))
+        rc, out, err = sh([exe, r["program"], str(r["P"]), str(r["size"]), "replayf", f], timeout=600)
+        runs = parse_disp(out)
+        bad = rc != 0 or not runs or runs[0]["mon"] != "ok"
+        if runs and not bad:
+            d, stats, lines = dp_validate(runs[0])
+            if d:
+                print(d)
+                bad = True
+        print("\n".join(l[:300] for l in out.split("\n") if l.startswith(("mon", "summary", "units"))))
+        return 1 if bad else 0
     if r["component"] == "e2e":
         exe = build("e2e", E2E_WRAPS)
         os.makedirs(os.path.join(common.BUILD, PID), exist_ok=True)
